@@ -130,6 +130,32 @@ fn sx(t: &str) -> Option<Option<String>> {
     Some(Some(String::from_utf8(b).ok()?))
 }
 
+/// distinct files whose descriptors are put into bodies; identified by (st_dev, st_ino) after the round trip
+fn file_table() -> Vec<std::fs::File> {
+    ["/dev/null", "/dev/zero", "/proc/self/exe"].iter().map(|p| std::fs::File::open(p).unwrap()).collect()
+}
+
+fn file_index(f: &impl AsFd, table: &[std::fs::File]) -> String {
+    for (i, t) in table.iter().enumerate() {
+        if same_file(f, t) {
+            return format!("f{}", i);
+        }
+    }
+    "f?".into()
+}
+
+fn idx_args(args: &[&str]) -> Option<Vec<usize>> {
+    let mut v = vec![];
+    for a in args {
+        let i: usize = a.parse().ok()?;
+        if i > 2 {
+            return None;
+        }
+        v.push(i);
+    }
+    Some(v)
+}
+
 fn devnull() -> std::fs::File {
     std::fs::File::open("/dev/null").unwrap()
 }
@@ -244,6 +270,7 @@ fn build_case(w: &[&str]) -> Option<String> {
     }
 
     let null = devnull();
+    let files = file_table();
     let m: Message = match body[0] {
         "unit" => tryb!(b.build(&())),
         "s" => tryb!(b.build(&sx(body.get(1)?)??)),
@@ -258,6 +285,26 @@ fn build_case(w: &[&str]) -> Option<String> {
         }
         "h" => tryb!(b.build(&Fd::from(&null))),
         "sh" => tryb!(b.build(&(sx(body.get(1)?)??, Fd::from(&null)))),
+        // several typed descriptors, possibly the very same one more than once
+        "hh" => {
+            let ix = idx_args(&body[1..])?;
+            if ix.len() != 2 {
+                return None;
+            }
+            tryb!(b.build(&(Fd::from(&files[ix[0]]), Fd::from(&files[ix[1]]))))
+        }
+        "ah" => {
+            let ix = idx_args(&body[1..])?;
+            let v: Vec<Fd<'_>> = ix.iter().map(|i| Fd::from(&files[*i])).collect();
+            tryb!(b.build(&v))
+        }
+        "hv" => {
+            let ix = idx_args(&body[1..])?;
+            if ix.len() != 2 {
+                return None;
+            }
+            tryb!(b.build(&(Fd::from(&files[ix[0]]), zvariant::Value::from(Fd::from(&files[ix[1]])))))
+        }
         "raw" => {
             let sig = sx(body.get(1)?)?.unwrap_or_default();
             let bytes = match *body.get(2)? {
@@ -281,14 +328,14 @@ fn build_case(w: &[&str]) -> Option<String> {
     let re = guard_panic(|| match unsafe { Message::from_bytes(data) } {
         Err(_) => "ERR".to_string(),
         Ok(r) => {
-            let typed = guard(|| typed_body(&r, body[0], &null));
+            let typed = guard(|| typed_body(&r, body[0], &null, &files));
             format!("OK:{}|{}", observe(&r), typed)
         }
     });
     Some(format!("OK|{}|{}|{}|{}", hex(&bytes), nfds, built, re))
 }
 
-fn typed_body(r: &Message, shape: &str, null: &std::fs::File) -> String {
+fn typed_body(r: &Message, shape: &str, null: &std::fs::File, files: &[std::fs::File]) -> String {
     let b = r.body();
     let fdtok = |f: &Fd<'_>| if same_file(f, null) { "fd".to_string() } else { "otherfd".to_string() };
     match shape {
@@ -313,6 +360,27 @@ fn typed_body(r: &Message, shape: &str, null: &std::fs::File) -> String {
         "sh" => b
             .deserialize::<(String, Fd<'_>)>()
             .map(|(s, f)| format!("{},{}", xs(Some(&s)), fdtok(&f)))
+            .unwrap_or_else(|_| "DERR".into()),
+        "hh" => b
+            .deserialize::<(Fd<'_>, Fd<'_>)>()
+            .map(|(x, y)| format!("{},{}", file_index(&x, files), file_index(&y, files)))
+            .unwrap_or_else(|_| "DERR".into()),
+        "ah" => b
+            .deserialize::<Vec<Fd<'_>>>()
+            .map(|v| {
+                if v.is_empty() {
+                    "-".to_string()
+                } else {
+                    v.iter().map(|f| file_index(f, files)).collect::<Vec<_>>().join(",")
+                }
+            })
+            .unwrap_or_else(|_| "DERR".into()),
+        "hv" => b
+            .deserialize::<(Fd<'_>, zvariant::Value<'_>)>()
+            .map(|(x, v)| match v {
+                zvariant::Value::Fd(y) => format!("{},{}", file_index(&x, files), file_index(&y, files)),
+                _ => "notfd".to_string(),
+            })
             .unwrap_or_else(|_| "DERR".into()),
         _ => "-".into(),
     }
